@@ -1,6 +1,7 @@
 import BreezyVerif.Lemmas.C50
 import BreezyVerif.Lemmas.C50M
 import BreezyVerif.Lemmas.C50W
+import BreezyVerif.Lemmas.C50X
 /-!
 C50 — theorems about the model of `breezy/cmdline.py`.
 
@@ -9,35 +10,158 @@ scalar values (no length bound) and both values of `single_quotes_allowed`.
 -/
 namespace BreezyVerif.C50
 
-/-- **Round trip.**  Every list of arguments (any characters, including
-whitespace, quotes, backslashes and the empty argument), each quoted by the
-documented rules and joined with single spaces, is split back into exactly the
-same list; every token is reported as quoted. -/
+/-- **Mixed command lines, as callers write them.**  A command line is a
+sequence of arguments, each preceded by whitespace `p.1` (any characters of the
+Unicode whitespace table; non-empty except possibly before the first argument)
+and optionally followed by trailing whitespace.  Each argument `p.2` is a
+non-empty run of segments written without whitespace between them: `Seg.q a`
+is ANY text `a` (empty, with whitespace, quotes, backslashes) quoted by the
+documented rules, `Seg.w s` is a non-empty unquoted text of ordinary characters
+and backslashes.  Hypothesis `itemOk`: an unquoted segment that is directly
+followed by another segment does not end in a backslash (`x\"a"` is the text
+`x"a"`, not `x\` + `a`); before whitespace or the end a trailing backslash is
+fine (`C:\dir\ "a"`).  Then splitting yields exactly one token per argument:
+the concatenation of the segment texts, reported as quoted iff the argument
+starts with a quoted segment.  `foo "a b" --opt="x y" bar` is the instance
+`[w foo], [q "a b"], [w --opt=, q "x y"], [w bar]`. -/
+theorem tokens_mixed_line (sq : Bool) (items : List (Str × List Seg)) (trail : Str)
+    (hitems : ∀ p ∈ items, p.1.all isWs = true ∧ p.2 ≠ [] ∧ itemOk sq p.2 = true)
+    (hsep : ∀ p ∈ items.tail, p.1 ≠ [])
+    (htrail : trail.all isWs = true) :
+    tokens sq (layout sq items ++ trail) = items.map (fun p => (itemQuoted p.2, itemVal p.2)) :=
+  tokens_layout sq trail htrail items hitems hsep
+
+/-- `cmdline.split` on a mixed command line gives the argument values -/
+theorem split_mixed_line (sq : Bool) (items : List (Str × List Seg)) (trail : Str)
+    (hitems : ∀ p ∈ items, p.1.all isWs = true ∧ p.2 ≠ [] ∧ itemOk sq p.2 = true)
+    (hsep : ∀ p ∈ items.tail, p.1 ≠ [])
+    (htrail : trail.all isWs = true) :
+    split sq (layout sq items ++ trail) = items.map (fun p => itemVal p.2) := by
+  simp [split, tokens_mixed_line sq items trail hitems hsep htrail, Function.comp_def]
+
+/-- non-vacuity of the hypotheses, and what the layout looks like:
+`<TAB>--using="my \"tool\"\\" <U+3000>C:\dir\ ""<NBSP><LF>"a b"c\d"'"<CR>`
+(single quotes off: `'` is an ordinary character) -/
+example :
+    let items : List (Str × List Seg) :=
+      [(['\t'], [.w "--using=".toList, .q "my \"tool\"\\".toList]),
+       (" \u3000".toList, [.w "C:\\dir\\".toList]),
+       ([' '], [.q []]),
+       ("\u00a0\n".toList, [.q "a b".toList, .w "c\\d".toList, .q ['\'']])]
+    (∀ p ∈ items, p.1.all isWs = true ∧ p.2 ≠ [] ∧ itemOk false p.2 = true)
+      ∧ (∀ p ∈ items.tail, p.1 ≠ []) ∧ ['\r'].all isWs = true
+      ∧ layout false items ++ ['\r']
+        = "\t--using=\"my \\\"tool\\\"\\\\\" \u3000C:\\dir\\ \"\"\u00a0\n\"a b\"c\\d\"'\"\r".toList
+      ∧ tokens false (layout false items ++ ['\r'])
+        = [(false, "--using=my \"tool\"\\".toList), (false, "C:\\dir\\".toList), (true, []),
+           (true, "a bc\\d'".toList)] := by decide
+
+/-- the hypothesis on unquoted segments is needed: `x\` directly followed by
+`"a"` is read as the single text `x"a"` with an unterminated quote -/
+example : itemOk true [.w "x\\".toList, .q ['a']] = false
+    ∧ tokens true (layout true [([], [.w "x\\".toList, .q ['a']])]) = [(false, "x\"a".toList)] := by
+  decide
+
+/-- **Arguments and plain words** (the special case with one segment per
+argument): every item is either `quote a` for an arbitrary `a` or a non-empty
+word of ordinary characters / backslashes, items are separated by arbitrary
+non-empty whitespace; splitting yields `a` (quoted) resp. the word (unquoted). -/
+theorem tokens_args_and_words (sq : Bool) (items : List (Str × Seg)) (trail : Str)
+    (hitems : ∀ p ∈ items, p.1.all isWs = true ∧ itemOk sq [p.2] = true)
+    (hsep : ∀ p ∈ items.tail, p.1 ≠ [])
+    (htrail : trail.all isWs = true) :
+    tokens sq (layout sq (items.map fun p => (p.1, [p.2])) ++ trail)
+      = items.map (fun p => match p.2 with
+          | .q a => (true, a)
+          | .w s => (false, s)) := by
+  rw [tokens_layout sq trail htrail]
+  · rw [List.map_map]
+    apply List.map_congr_left
+    intro p _
+    cases h : p.2 <;> simp [h, itemQuoted, itemVal, Seg.val]
+  · intro p hp
+    simp only [List.mem_map] at hp
+    obtain ⟨q, hq, rfl⟩ := hp
+    exact ⟨(hitems q hq).1, by simp, (hitems q hq).2⟩
+  · intro p hp
+    rw [← List.map_tail, List.mem_map] at hp
+    obtain ⟨q, hq, rfl⟩ := hp
+    exact hsep q hq
+
+/-- non-vacuity: `foo "a b"<TAB>\\host\x<U+3000>""` -/
+example :
+    let items : List (Str × Seg) :=
+      [([], .w "foo".toList), ([' '], .q "a b".toList), (['\t'], .w "\\\\host\\x".toList),
+       (['\u3000'], .q [])]
+    (∀ p ∈ items, p.1.all isWs = true ∧ itemOk true [p.2] = true)
+      ∧ (∀ p ∈ items.tail, p.1 ≠ [])
+      ∧ layout true (items.map fun p => (p.1, [p.2]))
+        = "foo \"a b\"\t\\\\host\\x\u3000\"\"".toList := by decide
+
+/-- **Round trip with arbitrary whitespace.**  Every list of arguments (any
+characters, including the empty argument), each quoted by the documented rules
+and preceded by arbitrary whitespace (non-empty between arguments; optional
+before the first and after the last), is split back into exactly the same
+list; every token is reported as quoted. -/
+theorem tokens_join_quote_ws (sq : Bool) (items : List (Str × Str)) (trail : Str)
+    (hws : ∀ p ∈ items, p.1.all isWs = true)
+    (hsep : ∀ p ∈ items.tail, p.1 ≠ [])
+    (htrail : trail.all isWs = true) :
+    tokens sq (layout sq (items.map fun p => (p.1, [Seg.q p.2])) ++ trail)
+      = items.map (fun p => (true, p.2)) := by
+  have h := tokens_args_and_words sq (items.map fun p => (p.1, Seg.q p.2)) trail
+    (by
+      intro p hp
+      simp only [List.mem_map] at hp
+      obtain ⟨q, hq, rfl⟩ := hp
+      exact ⟨hws q hq, by simp [itemOk]⟩)
+    (by
+      intro p hp
+      rw [← List.map_tail, List.mem_map] at hp
+      obtain ⟨q, hq, rfl⟩ := hp
+      exact hsep q hq)
+    htrail
+  simpa [List.map_map, Function.comp_def] using h
+
+theorem split_join_quote_ws (sq : Bool) (items : List (Str × Str)) (trail : Str)
+    (hws : ∀ p ∈ items, p.1.all isWs = true)
+    (hsep : ∀ p ∈ items.tail, p.1 ≠ [])
+    (htrail : trail.all isWs = true) :
+    split sq (layout sq (items.map fun p => (p.1, [Seg.q p.2])) ++ trail) = items.map (·.2) := by
+  simp [split, tokens_join_quote_ws sq items trail hws hsep htrail, Function.comp_def]
+
+/-- non-vacuity: `<LF>"a b"<TAB><NBSP>""<U+2003>"\\"<U+3000>` -/
+example :
+    let items : List (Str × Str) := [(['\n'], "a b".toList), ("\t\u00a0".toList, []), (['\u2003'], ['\\'])]
+    (∀ p ∈ items, p.1.all isWs = true) ∧ (∀ p ∈ items.tail, p.1 ≠ []) ∧ ['\u3000'].all isWs = true
+      ∧ layout true (items.map fun p => (p.1, [Seg.q p.2])) ++ ['\u3000']
+        = "\n\"a b\"\t\u00a0\"\"\u2003\"\\\\\"\u3000".toList := by decide
+
+/-- **Round trip** (the property as stated: joined with single spaces).  Every
+list of arguments (any characters, including whitespace, quotes, backslashes
+and the empty argument), each quoted by the documented rules and joined with
+single spaces, is split back into exactly the same list; every token is
+reported as quoted.  Instance of `tokens_mixed_line` (`joinSp_layout`). -/
 theorem tokens_join_quote (sq : Bool) (args : List Str) :
     tokens sq (joinSp (args.map (quote sq))) = args.map (fun a => (true, a)) := by
-  have single : ∀ a, tokens sq (quote sq a) = [(true, a)] := by
-    intro a
-    have h := (esc_read sq .ws [] a).1 { quoted := true }
-    simp only [tokens, quote, run, procExit, isWs_dq, allowed_dq]
-    simp only [Bool.false_eq_true, if_false, if_true]
-    rw [h]
-    simp [run, finish, emit, result, Ctx.app]
-  have cons : ∀ a more, tokens sq (quote sq a ++ ' ' :: more) = (true, a) :: tokens sq more := by
-    intro a more
-    have h := (esc_read sq .ws (' ' :: more) a).1 { quoted := true }
-    simp only [tokens, quote, run, procExit, isWs_dq, allowed_dq, List.cons_append,
-      List.append_assoc, List.nil_append]
-    simp only [Bool.false_eq_true, if_false, if_true]
-    rw [h]
-    simp [run, procExit, emit, result, Ctx.app]
-  induction args with
-  | nil => simp [joinSp, tokens, run, finish, emit, result]
-  | cons a r ih =>
-    cases r with
-    | nil => simpa [joinSp] using single a
-    | cons b r' =>
-      simp only [List.map_cons, joinSp] at ih ⊢
-      rw [cons, ih]
+  have h := tokens_layout sq [] rfl (spItems args)
+    (by
+      intro p hp
+      cases args with
+      | nil => simp [spItems] at hp
+      | cons a r =>
+        simp only [spItems, List.mem_cons, List.mem_map] at hp
+        rcases hp with rfl | ⟨b, _, rfl⟩ <;> simp [itemOk])
+    (by
+      intro p hp
+      cases args with
+      | nil => simp [spItems] at hp
+      | cons a r =>
+        simp only [spItems, List.tail_cons, List.mem_map] at hp
+        obtain ⟨b, _, rfl⟩ := hp
+        simp)
+  rw [joinSp_layout, ← List.append_nil (layout sq (spItems args)), h]
+  cases args <;> simp [spItems, itemQuoted, itemVal, Seg.val, Function.comp_def]
 
 /-- `cmdline.split(" ".join(quote(a) for a in args)) == args` -/
 theorem split_join_quote (sq : Bool) (args : List Str) :
@@ -136,6 +260,22 @@ namespace BreezyVerif.C50
 theorem splitM_join_quote (sq : Bool) (args : List Str) :
     splitM sq (joinSp (args.map (quote sq))) = some args := by
   rw [split_total, split_join_quote]
+
+/-- mixed command lines, stated for the literal machine -/
+theorem splitM_mixed_line (sq : Bool) (items : List (Str × List Seg)) (trail : Str)
+    (hitems : ∀ p ∈ items, p.1.all isWs = true ∧ p.2 ≠ [] ∧ itemOk sq p.2 = true)
+    (hsep : ∀ p ∈ items.tail, p.1 ≠ [])
+    (htrail : trail.all isWs = true) :
+    splitM sq (layout sq items ++ trail) = some (items.map (fun p => itemVal p.2)) := by
+  rw [split_total, split_mixed_line sq items trail hitems hsep htrail]
+
+/-- the whitespace-general round trip, stated for the literal machine -/
+theorem splitM_join_quote_ws (sq : Bool) (items : List (Str × Str)) (trail : Str)
+    (hws : ∀ p ∈ items, p.1.all isWs = true)
+    (hsep : ∀ p ∈ items.tail, p.1 ≠ [])
+    (htrail : trail.all isWs = true) :
+    splitM sq (layout sq (items.map fun p => (p.1, [Seg.q p.2])) ++ trail) = some (items.map (·.2)) := by
+  rw [split_total, split_join_quote_ws sq items trail hws hsep htrail]
 
 /-- examples from `test_cmdline.py` evaluated in the model (both machines) -/
 example : tokens false "\"\\\\\\\\\" *.py".toList = [(true, "\\\\".toList), (false, "*.py".toList)]
